@@ -37,7 +37,7 @@ ASSUMPTIONS = ['all lookups see the table as it was before the request (the docs
                '1..40, never 0; when such an id exists but the row does not match, the add is impossible: rejection must leave '
                'no trace, acceptance is not judged',
                'values are right-typed for their column except in the labelled conversion class']
-BUDGET = {'quick': dict(examples=3600, shards=12, max_seconds=36),
+BUDGET = {'quick': dict(examples=3600, shards=12, max_seconds=32),
           'thorough': dict(examples=64000, shards=16, max_seconds=420)}
 SHRINK_BUDGET = {'quick': 120, 'thorough': 400}
 
